@@ -75,6 +75,21 @@ Definition g_overlay (bottom top_g : grid) (left top : Z) : grid :=
          (combine (takez h (dropz top bottom)) top_g)
   ++ dropz (top + h) bottom.
 
+(* a cursor moves with the content it belongs to: when a trim removes that content the cursor
+   is gone (pop-up coordinates are kept) *)
+Definition g_drop_cursor (g : grid) (c : coords) : coords :=
+  match cur c with
+  | Some (x, y) =>
+      if (0 <=? x) && (x <? gwidth g) && (0 <=? y) && (y <? gheight g) then c else Coords None (pop c)
+  | None => c
+  end.
+(* coordinates after pad_trim_top_bottom: the trimming part drops a cursor that left the
+   trimmed canvas, then the top padding shifts what is left *)
+Definition g_padtb_coords (g : grid) (t b : Z) (c : coords) : coords :=
+  let trimmed := takez (gheight g - Z.max 0 (- t) - Z.max 0 (- b)) (dropz (Z.max 0 (- t)) g) in
+  let c1 := if (t <? 0) || (b <? 0) then g_drop_cursor trimmed (translate_coords c 0 (- Z.max 0 (- t))) else c in
+  if 0 <? t then translate_coords c1 0 t else c1.
+
 (* ---- coordinates: they move with the content; where several operands carry one, the
    later operand's wins (dict.update order) ---- *)
 Fixpoint g_combine_coords (vs : list gval) (row : Z) (co : coords) : coords :=
@@ -155,19 +170,25 @@ Definition gstep (leaves : list (canvas * option (Z * Z))) (st : gstate) (i : in
   | IPadLR l r =>
       on_gcomp st (fun v =>
         if 0 <? gwidth (gg v) + Z.min l 0 + Z.min r 0
-        then Some (GV (g_pad_trim_lr (gg v) l r) (translate_coords (gco v) l 0) false false) else None)
+        then let g' := g_pad_trim_lr (gg v) l r in
+             let co := translate_coords (gco v) l 0 in
+             Some (GV g' (if (l <? 0) || (r <? 0) then g_drop_cursor g' co else co) false false)
+        else None)
   | IPadTB t b =>
       on_gcomp st (fun v =>
         if 0 <? gheight (gg v) + Z.min t 0 + Z.min b 0
-        then Some (GV (g_pad_trim_tb (gg v) t b) (translate_coords (gco v) 0 t) false false) else None)
+        then Some (GV (g_pad_trim_tb (gg v) t b) (g_padtb_coords (gg v) t b (gco v)) false false) else None)
   | ITrim top count =>
       on_gcomp st (fun v =>
         if (0 <=? top) && (top <? gheight (gg v)) && (match count with None => true | Some n => 0 <? n end)
-        then Some (GV (g_trim (gg v) top count) (translate_coords (gco v) 0 (- top)) false false) else None)
+        then let g' := g_trim (gg v) top count in
+             Some (GV g' (g_drop_cursor g' (translate_coords (gco v) 0 (- top))) false false)
+        else None)
   | ITrimEnd e =>
       on_gcomp st (fun v =>
         if (0 <? e) && (e <? gheight (gg v))
-        then Some (GV (takez (gheight (gg v) - e) (gg v)) (gco v) false false) else None)
+        then let g' := takez (gheight (gg v) - e) (gg v) in Some (GV g' (g_drop_cursor g' (gco v)) false false)
+        else None)
   | IFillAttr m =>
       on_gcomp st (fun v => Some (GV (g_fill (dict_of_list m) (gg v)) (gco v) false false))
   | ISetCursor cu =>
